@@ -98,7 +98,7 @@ func ctxParts(p *an.Prog, v ssa.Value) (hasConst bool, ch ssa.Value, helper *ssa
 	if call, ok := v.(*ssa.Call); ok && len(call.Call.Args) == 1 {
 		if f := call.Call.StaticCallee(); f != nil && f.Pkg != nil && strings.HasPrefix(f.Pkg.Pkg.Path(), an.Mod) && len(f.Blocks) > 0 {
 			okH := len(f.Params) == 1
-			for _, b := range f.Blocks {
+			for _, b := range an.ScanBlocks(f) {
 				for _, ins := range b.Instrs {
 					if r, isR := ins.(*ssa.Return); isR {
 						add, isAdd := r.Results[0].(*ssa.BinOp)
@@ -126,7 +126,7 @@ func c27(c *an.Check) {
 		Reqs: []an.Req{
 			an.CallOK("pubmessage.ExtractAndVerify ok", cPMEAV),
 			{Name: "the verified channel is locally subscribed", Holds: func(s *an.State, at ssa.Instruction) bool {
-				for _, b := range hp.Blocks {
+				for _, b := range an.ScanBlocks(hp) {
 					for _, ins := range b.Instrs {
 						lk, ok := ins.(*ssa.Lookup)
 						if !ok || !lk.CommaOk || !an.IsFieldLoad(lk.X, chF) {
@@ -215,7 +215,7 @@ func sweepObligations(c *an.Check) {
 	}
 	// (1) len(subscriptions)==0 => delete(m.channels, ch) before the next iteration
 	nEmpty, okEmpty, whyEmpty := 0, true, ""
-	for _, b := range exe.Blocks {
+	for _, b := range an.ScanBlocks(exe) {
 		iff, ok := b.Instrs[len(b.Instrs)-1].(*ssa.If)
 		if !ok {
 			continue
@@ -251,7 +251,7 @@ func sweepObligations(c *an.Check) {
 	}())
 	// (2)/(3) announcements and withdrawals keep the announced-set in step
 	nAnn, nWd, okAnn, okWd, why := 0, 0, true, true, ""
-	for _, b := range exe.Blocks {
+	for _, b := range an.ScanBlocks(exe) {
 		if an.InnermostLoop(exe, b) == nil {
 			continue
 		}
@@ -391,7 +391,7 @@ func c28(c *an.Check) {
 	c.Require(okP, "PROVENANCE", "floodsub execPublish forwards the queued message", ep, "", 1, "packet built from pubMsg.msg", "the forwarded packet is not built from the queued message")
 	// the queue entry carries the verified packet, its verified channel and the peer the packet arrived from
 	okQ, whyQ := false, "publishChMsg literal not found in handleValidMessage"
-	for _, b := range hvm.Blocks {
+	for _, b := range an.ScanBlocks(hvm) {
 		for _, ins := range b.Instrs {
 			al, ok := ins.(*ssa.Alloc)
 			if !ok || !isNamedPtr(al.Type(), "publishChMsg") {
@@ -456,7 +456,7 @@ func c28(c *an.Check) {
 	// R3 atomicity: the seen-cache is consulted with one atomic test-and-set
 	methods := map[string]int{}
 	for _, fn := range p.PkgFuncs(fsPkg) {
-		for _, b := range fn.Blocks {
+		for _, b := range an.ScanBlocks(fn) {
 			for _, ins := range b.Instrs {
 				call, ok := ins.(*ssa.Call)
 				if !ok {
@@ -531,7 +531,7 @@ func c29(c *an.Check) {
 	hms := p.Func("pubsub/controller", "streamHandler", "HandleMountedStream")
 	okH := false
 	if hms != nil {
-		for _, b := range hms.Blocks {
+		for _, b := range an.ScanBlocks(hms) {
 			for _, ins := range b.Instrs {
 				if call, ok := ins.(*ssa.Call); ok && call.Call.IsInvoke() && call.Call.Method.Name() == "AddPeerStream" {
 					k, isK := call.Call.Args[1].(*ssa.Const)
@@ -541,7 +541,7 @@ func c29(c *an.Check) {
 		}
 	}
 	okT := false
-	for _, b := range tl.Blocks {
+	for _, b := range an.ScanBlocks(tl) {
 		for _, ins := range b.Instrs {
 			if call, ok := ins.(*ssa.Call); ok && call.Call.IsInvoke() && call.Call.Method.Name() == "AddPeerStream" {
 				okT = isTrueConst(call.Call.Args[1])
@@ -562,7 +562,7 @@ func c29(c *an.Check) {
 					clears = true
 				}
 			}
-			for _, b := range g.Blocks {
+			for _, b := range an.ScanBlocks(g) {
 				for _, ins := range b.Instrs {
 					if call, ok := ins.(*ssa.Call); ok && an.BuiltinName(call) == "delete" {
 						if lk := an.MapLookupOf(call.Call.Args[0]); lk != nil && an.IsFieldLoad(lk.X, chF) {
@@ -587,7 +587,7 @@ func c29(c *an.Check) {
 	nDel, okDel := 0, true
 	if exe != nil {
 		st := p.NewState(exe)
-		for _, b := range exe.Blocks {
+		for _, b := range an.ScanBlocks(exe) {
 			for _, ins := range b.Instrs {
 				call, ok := ins.(*ssa.Call)
 				if !ok || an.BuiltinName(call) != "delete" || !an.IsFieldLoad(call.Call.Args[0], chF) {
@@ -610,7 +610,7 @@ func c29(c *an.Check) {
 	nDelAll, badDel := 0, ""
 	for _, fn := range p.PkgFuncs(fsPkg) {
 		for _, g := range an.WithClosures(fn) {
-			for _, b := range g.Blocks {
+			for _, b := range an.ScanBlocks(g) {
 				for _, ins := range b.Instrs {
 					if call, ok := ins.(*ssa.Call); ok && an.BuiltinName(call) == "delete" && an.IsFieldLoad(call.Call.Args[0], chF) {
 						nDelAll++
@@ -676,7 +676,7 @@ func writePacketBlocking(c *an.Check) {
 	ok, why := false, "writePacket not found"
 	if wp != nil {
 		why = "no send on the peer's packet queue found"
-		for _, b := range wp.Blocks {
+		for _, b := range an.ScanBlocks(wp) {
 			for _, ins := range b.Instrs {
 				switch x := ins.(type) {
 				case *ssa.Select:
@@ -711,7 +711,7 @@ func subscriptionReleaseDiscipline(c *an.Check) {
 	nDel, bad := 0, ""
 	for _, g := range an.WithClosures(rel) {
 		var dels []*ssa.Call
-		for _, b := range g.Blocks {
+		for _, b := range an.ScanBlocks(g) {
 			for _, ins := range b.Instrs {
 				call, ok := ins.(*ssa.Call)
 				if !ok {
@@ -739,7 +739,7 @@ func subscriptionReleaseDiscipline(c *an.Check) {
 			}
 		}
 		// len(channel set) is read only after the delete on every path
-		for _, b := range g.Blocks {
+		for _, b := range an.ScanBlocks(g) {
 			for _, ins := range b.Instrs {
 				call, ok := ins.(*ssa.Call)
 				if !ok || an.BuiltinName(call) != "len" {
@@ -808,7 +808,7 @@ func publishedMessageFreshness(c *an.Check) {
 	npm := p.Func(pmPkg, "", "NewPubMessage")
 	ok, why := false, "NewPubMessage / its inner literal not found"
 	if npm != nil {
-		for _, b := range npm.Blocks {
+		for _, b := range an.ScanBlocks(npm) {
 			for _, ins := range b.Instrs {
 				st, isSt := ins.(*ssa.Store)
 				if !isSt {
@@ -837,7 +837,7 @@ func channelSubReleaseUnconditional(c *an.Check) {
 	condBad := false
 	if res != nil {
 		for _, g := range an.WithClosures(res)[1:] {
-			for _, b := range g.Blocks {
+			for _, b := range an.ScanBlocks(g) {
 				for _, ins := range b.Instrs {
 					call, isCall := ins.(*ssa.Call)
 					if !isCall || !call.Call.IsInvoke() || call.Call.Method.Name() != "Release" {
@@ -869,7 +869,7 @@ func perKeySetsAreFresh(c *an.Check, construct string, fns []*ssa.Function) {
 	n, bad := 0, ""
 	for _, fn := range fns {
 		for _, g := range an.WithClosures(fn) {
-			for _, b := range g.Blocks {
+			for _, b := range an.ScanBlocks(g) {
 				for _, ins := range b.Instrs {
 					mu, ok := ins.(*ssa.MapUpdate)
 					if !ok {
